@@ -43,6 +43,13 @@ objs=[(grad(k+g)[1]*h + c*g, np.array([[0.25,0.25],[0.5,0.125],[0.125,0.625]]))]
     corpus._c("c04_three_coefficients_all_kept", '''
 m=mesh("tetrahedron"); D=space(m,"DP",0); V=space(m,"P",1); k=Coefficient(D); g=Coefficient(V); h=Coefficient(space(m,"P",2))
 objs=[(k*g + g*h, np.array([[0.25,0.25,0.125]])), (k*grad(h), np.array([[0.125,0.25,0.5]]))]'''),
+    # not linear in the argument: either rejected or the value with the argument replaced by each basis function
+    corpus._c("c04_mayreject_affine_in_argument", '''
+m=mesh("triangle"); V=space(m,"P",1); u=TrialFunction(V); f=Coefficient(V)
+objs=[(u + 1.0, np.array([[0.25,0.25],[0.5,0.125]]))]'''),
+    corpus._c("c04_mayreject_argument_plus_coefficient", '''
+m=mesh("triangle"); V=space(m,"P",2); u=TrialFunction(V); f=Coefficient(V)
+objs=[(f*u + f, np.array([[0.25,0.25]])), (as_vector([u.dx(0), f]), np.array([[0.5,0.125]]))]'''),
     corpus._c("c04_mixed_coefficient", '''
 m=mesh("triangle"); E=basix.ufl.mixed_element([el("P","triangle",2,shape=(2,)), el("P","triangle",1)])
 W=FunctionSpace(m,E); w=Coefficient(W); (uu,pp)=split(w); k=Constant(m)
@@ -60,6 +67,8 @@ def run(v, tier, seed, g):
     jres = common.run_cases(EXPRS, script="jit_worker.py", timeout=300)
     ndesc = 0
     for r in jres:
+        if r["status"] != "ok" and "mayreject" in r["id"]:
+            continue        # an input outside the supported set may be refused
         if r["status"] != "ok":
             v.oblige(False)
             v.violation(f"jit:{r['id']}", f"expression could not be JIT-compiled: {r.get('error','')[:200]}", {"case": r["id"], "code": r["code"]}, no_input=True)
